@@ -45,14 +45,16 @@ unit("jenkinsLE.aligned.00-11", "U_JENKINSLE, ASEL=1, LO=0, HI=11",
 # from 12 bytes on the word loads have to be proved equal to lookup2's byte sums under the mixes:
 # SMT solvers do not finish, kissat needs 13 s (1 block) .. 180 s (4 blocks) per instance.
 def le_hard(lo, hi, a, quick, timeout):
-    unit("jenkinsLE.aligned.a%d.%02d-%02d" % (a, lo, hi), "U_JENKINSLE, ALO=%d, AHI=%d, LO=%d, HI=%d" % (a, a, lo, hi),
+    # NO_ALSO: "jenkinsLE == jenkins" is implied by this unit (jenkinsLE == reference) and the jenkins units
+    # (jenkins == reference at the same length and alignment); asserting it again doubles the SAT work
+    unit("jenkinsLE.aligned.a%d.%02d-%02d" % (a, lo, hi), "U_JENKINSLE, NO_ALSO, ALO=%d, AHI=%d, LO=%d, HI=%d" % (a, a, lo, hi),
          "len <= 48 bytes (this unit: every len %d..%d at alignment %d; bytes and seed symbolic)" % (lo, hi, a),
          backend="kissat,cadical", quick=quick, timeout=timeout, funcs="spifhash_jenkinsLE, spifhash_jenkins")
 for a in (0, 4):
-    for lo in range(12, 24, 2):
-        le_hard(lo, lo + 1, a, True, 280)
-    for lo in range(24, 36, 2):
-        le_hard(lo, lo + 1, a, False, 400)
+    for lo in range(12, 24):
+        le_hard(lo, lo, a, True, 280)
+    for lo in range(24, 36):
+        le_hard(lo, lo, a, False, 400)
     for lo in range(36, 49):
         le_hard(lo, lo, a, False, 600)
 # FNV: one step of the published shift-add form is the multiplication by the FNV prime (all 2^32 values)
